@@ -12,7 +12,8 @@ PY_KEY = "PyLib PySrcBase PySrcKey PySrcKeyFacts"         # space_utils.space_un
 PY_PLACE = "PyLib PySrcBase PySrcPlace PySrcPlaceFacts"   # petri_net_translation.variable_to_place / place_to_variable
 PY_SD = "PyLib PyLibSd PySrcSdBase PySrcSd PySrcSdFacts"              # _sd_algorithms/expand_bfs.py, expand_dfs.py
 PY_TARGET = "PyLibSd PySrcSdBase PySrcSdTarget PySrcSdTargetFacts"   # _sd_algorithms/expand_to_target.py
-EXTRA_IMPORTS = {"C02": PY_SD, "C03": PY_SD, "C04": PY_SD, "C06": PY_SPACE + " " + PY_TARGET, "C10": PY_PLACE, "C20": PY_KEY}
+PY_CORE = "PyLibCore PySrcCore PySrcCoreFacts"                    # succession_diagram.py: _update_node_depth, _ensure_edge, _ensure_node, _expand_one_node, node_successors, node_is_minimal, __len__, root
+EXTRA_IMPORTS = {"C02": PY_SD + " " + PY_CORE, "C03": PY_SD, "C04": PY_SD + " " + PY_CORE, "C14": PY_CORE, "C06": PY_SPACE + " " + PY_TARGET, "C10": PY_PLACE, "C20": PY_KEY + " " + PY_CORE}
 
 def imports_for(pid):
     extra = EXTRA_IMPORTS.get(pid)
@@ -102,7 +103,10 @@ Model: Diagram.expand_bfs / expand_dfs from Diagram.init (compared node by node,
 real expand_bfs / expand_dfs on every run).  Hierarchy = well-formed, all nodes trap spaces and
 percolation-closed, all expanded, Faithful (out-edges carry exactly the maximal trap spaces of the node,
 each once; at the root those fixing every source), root = percolation of the whole space.""",
- theorems=[("source_expand_bfs", "py_expand_bfs_spec_all", "translator tie: the function GENERATED from the current text of biobalm/_sd_algorithms/expand_bfs.py (PySrcSd.v, regenerated on every run; embedding PyLibSd.v) equals the model's expand_bfs for every diagram, every limit and every fuel"),
+ theorems=[("source_expand_one_node", "py_expand_one_node_spec", "translator tie: the function GENERATED from the current text of SuccessionDiagram._expand_one_node (PySrcCore.v; embedding PyLibCore.v) computes Diagram.expand_one for every diagram satisfying the class invariant CoreInv, every oracle for the percolated-net cache, and preserves CoreInv"),
+           ("source_ensure_node", "py_ensure_node_spec", "... _ensure_node / _ensure_edge / _update_node_depth compute Diagram.ensure_node"),
+           ("source_class_invariant_initially", "init_CoreInv", None),
+           ("source_expand_bfs", "py_expand_bfs_spec_all", "translator tie: the function GENERATED from the current text of biobalm/_sd_algorithms/expand_bfs.py (PySrcSd.v, regenerated on every run; embedding PyLibSd.v) equals the model's expand_bfs for every diagram, every limit and every fuel"),
            ("source_expand_dfs", "py_expand_dfs_spec_all", "... and expand_dfs.py the model's expand_dfs"),
            ("bfs_hierarchy", "bfs_hierarchy", None), ("dfs_hierarchy", "dfs_hierarchy", None),
            ("successors", "hierarchy_successors", "successors = percolations of the maximal trap spaces"),
@@ -174,7 +178,9 @@ expanded ordinary node carries exactly the maximal trap spaces of its space as m
 NoStubEdges: an unexpanded node has no out-edge; SWF: no space occurs twice.  step_Faithful_all extends
 this to every operation (skip nodes are excluded from Faithful by definition).  Continuing with BFS from any
 such state yields a Hierarchy (bfs_complete + the invariants), i.e. the same diagram up to node ids.""",
- theorems=[("source_expand_bfs", "py_expand_bfs_spec_all", "translator tie: the function GENERATED from the current text of biobalm/_sd_algorithms/expand_bfs.py (PySrcSd.v, regenerated on every run; embedding PyLibSd.v) equals the model's expand_bfs for every diagram, every limit and every fuel"),
+ theorems=[("source_node_successors", "py_node_successors_spec", "... node_successors(id, compute=True) computes Diagram.node_successors: the primitive of the translated strategy drivers"),
+           ("source_expand_one_node", "py_expand_one_node_spec", "translator tie: the function GENERATED from the current text of SuccessionDiagram._expand_one_node (PySrcCore.v; embedding PyLibCore.v) computes Diagram.expand_one for every diagram satisfying the class invariant CoreInv, every oracle for the percolated-net cache, and preserves CoreInv"),
+           ("source_expand_bfs", "py_expand_bfs_spec_all", "translator tie: the function GENERATED from the current text of biobalm/_sd_algorithms/expand_bfs.py (PySrcSd.v, regenerated on every run; embedding PyLibSd.v) equals the model's expand_bfs for every diagram, every limit and every fuel"),
            ("source_expand_dfs", "py_expand_dfs_spec_all", "... and expand_dfs.py the model's expand_dfs"),
            ("run_invariants", "run_invariants", None), ("step_Faithful_all", "step_Faithful_all", None),
            ("step_NoStubEdges", "step_NoStubEdges", None), ("step_SWF", "step_SWF", None),
@@ -394,7 +400,8 @@ SPEC["C14"] = dict(title="Cached attractor data is never stale", comment="""
 Model: every cache field carries a ghost tag = the successor motif list and skip flag it was computed
 against (Diagram.cur_tag); CacheOK says every set field carries the node's CURRENT tag.  The correspondence
 run compares which fields are set after every operation and judges the cached values themselves.""",
- theorems=[("step_CacheOK", "step_CacheOK", None), ("run_CacheOK", "run_CacheOK", None), ("expand_one_CacheOK", "expand_one_CacheOK", None),
+ theorems=[("source_expand_one_node", "py_expand_one_node_spec", "translator tie: the function GENERATED from the current text of SuccessionDiagram._expand_one_node (PySrcCore.v; embedding PyLibCore.v) computes Diagram.expand_one for every diagram satisfying the class invariant CoreInv, every oracle for the percolated-net cache, and preserves CoreInv"),
+           ("step_CacheOK", "step_CacheOK", None), ("run_CacheOK", "run_CacheOK", None), ("expand_one_CacheOK", "expand_one_CacheOK", None),
            ("q_cands_CacheOK", "q_cands_CacheOK", None), ("q_seeds_CacheOK", "q_seeds_CacheOK", None), ("q_sets_CacheOK", "q_sets_CacheOK", None),
            ("reclaim_CacheOK", "reclaim_CacheOK", None), ("not_vacuous", "stale_not_CacheOK", "CacheOK really excludes stale data"),
            ("block_expansion_CacheOK", "expand_block_CacheOK", "source shortcuts and clean-block bookkeeping of expand_block (after fix 3581ec3)"),
@@ -502,7 +509,9 @@ SPEC["C20"] = dict(title="Reported diagram metadata is accurate", comment="""
 Model: node ids are list positions (contiguous from the root at 0, len = size); depths are maintained by
 raise_depth; find_node goes through the integer key; ObsFacts.is_subgraph_b models is_subgraph (after fix 087feea).
 PARTIAL: summary() is not modelled; it is decided by recomputation in the run.""",
- theorems=[("find_node_exact", "find_node_exact", None), ("find_node_none", "find_node_none", None), ("step_extends", "step_extends", "ids and spaces are stable"),
+ theorems=[("source_ensure_node", "py_ensure_node_spec", "... _ensure_node / _ensure_edge / _update_node_depth compute Diagram.ensure_node"),
+           ("source_len", "py_len_spec", "translator tie: __len__, root and node_is_minimal as generated from the source"), ("source_root", "py_root_spec", None), ("source_node_is_minimal", "py_node_is_minimal_spec", None),
+           ("find_node_exact", "find_node_exact", None), ("find_node_none", "find_node_none", None), ("step_extends", "step_extends", "ids and spaces are stable"),
            ("depth_longest_path_all_histories", "run_DepthOK_all", None), ("depth_longest_path", "depth_longest_path", None),
            ("depth_is_max", "depth_is_max", None), ("depth_attained", "depth_attained", None), ("raise_depth_spec", "raise_depth_spec", None),
            ("space_key_inj", "space_key_inj", None), ("is_subgraph_spec", "is_subgraph_b_spec", "node-set and edge-set inclusion"),
